@@ -25,3 +25,4 @@ def run(col, configs, tier):
         guarded(col, sep.rule_take_n_twins, facts)
         guarded(col, sep.rule_window_keeps_count, facts)
         guarded(col, X.rule_suffix_step, facts)
+        guarded(col, X.rule_partial_count_is_position, facts)
